@@ -65,3 +65,21 @@ package signing
 //@   modifies *
 //@   ensures [C01.digest-not-below-the-order-is-refused-before-any-message-is-sent] val(old(round.temp.m)) >= curveN(old(round.Parameters.ec)) ==> (result != nil && sent(old(round.out)) == old(sent(round.out)))
 //@   ensures [C01.already-started-sends-nothing] old(round.started) ==> (result != nil && sent(old(round.out)) == old(sent(round.out)))
+
+// prepare.go: Lagrange re-weighting of the own share and of every public share for
+// the signer set. Builds fresh values only: nothing reachable from the key data
+// is written (the default frame: no modifies clause). The explicit panics are
+// excluded by the preconditions (caller configuration).
+//@ func PrepareForSigning
+//@   deadpoints 5
+//@   props C06 C01 C20 C04
+//@   requires okCurve(ec) && xi != nil && val(xi) >= 0
+//@   requires [one-id-and-one-public-share-per-member] len(ks) == pax && len(bigXs) == pax && 0 <= i && i < pax && pax <= 1024 && (forall k in 0..len(ks) :: (ks[k] != nil && val(ks[k]) >= 0)) && (forall k in 0..len(bigXs) :: (validPoint(bigXs[k]) && bigXs[k].curve == ec))
+//@   requires [ids-distinct-and-nonzero-modulo-the-order] (forall a, b in 0..len(ks) :: (a != b ==> (val(ks[a]) != val(ks[b]) && gcd(val(ks[a]) - val(ks[b]), curveN(ec)) == 1))) && (forall k in 0..len(ks) :: val(ks[k]) % curveN(ec) != 0)
+//@   ensures wi != nil && val(wi) >= 0 && fresh(bigWs) && len(bigWs) == pax && (forall k in 0..len(bigWs) :: (validPoint(bigWs[k]) && bigWs[k].curve == ec))
+//@   ensures [C20.own-share-object-not-written] val(xi) == old(val(xi))
+//@   ensures [C01.weighted-share-nonzero-when-the-share-is] (issecp(ec) && val(xi) % curveN(ec) != 0) ==> val(wi) % curveN(ec) != 0
+//@   loop 0 invariant 0 <= j && j <= pax && wi != nil && val(wi) >= 0 && modQ != nil && val(modQ) == curveN(ec)
+//@   loop 0 invariant (issecp(ec) && old(val(xi)) % curveN(ec) != 0) ==> val(wi) % curveN(ec) != 0
+//@   loop 1 invariant ((issecp(ec) && old(val(xi)) % curveN(ec) != 0) ==> val(wi) % curveN(ec) != 0) && 0 <= j && j <= pax && wi != nil && val(wi) >= 0 && modQ != nil && val(modQ) == curveN(ec) && fresh(bigWs) && len(bigWs) == pax && (forall k in 0..j :: (validPoint(bigWs[k]) && bigWs[k].curve == ec))
+//@   loop 2 invariant ((issecp(ec) && old(val(xi)) % curveN(ec) != 0) ==> val(wi) % curveN(ec) != 0) && 0 <= j && j < pax && 0 <= c && c <= pax && wi != nil && val(wi) >= 0 && modQ != nil && val(modQ) == curveN(ec) && fresh(bigWs) && len(bigWs) == pax && (forall k in 0..j :: (validPoint(bigWs[k]) && bigWs[k].curve == ec)) && validPoint(bigWj) && bigWj.curve == ec
